@@ -46,12 +46,13 @@ theorem cntP_pos_of (n : Nat) (p : Pc → Bool) (f : Nat → Pc) (t : Nat) (ht :
   | .rul _ v _ => decide (v = 1 ∨ v = 2)
   | .rlk o _ => o == .dropR
   | .rlp o => o == .dropR
+  | .rdec => true
   | _ => false
 
 structure Inv (s : St) : Prop where
   gI : Mutex.Inv (projG s)
   rI : Mutex.Inv (projR s)
-  rc : s.sh.r = (s.sh.RG : Int) + (cntP s.n cntR s.pcs : Int) + (s.sh.lostR : Int)
+  rc : s.sh.r = (s.sh.RG : Int) + (cntP s.n cntR s.pcs : Int)
   grpI : s.sh.grp = true ↔ 0 < s.sh.r
   wg1 : s.sh.WG ≤ 1
 
